@@ -130,7 +130,12 @@ class Kernel:
         if len(self.engines) < 2:
             raise AnalysisError(f"anchor lost: expected >= 2 engines derived from BaseEngine, found {len(self.engines)}")
         self.lock_attr, self.lock_ctor = self._attr_assigned_from(("Lock", "RLock", "Semaphore", "BoundedSemaphore", "Condition"))
-        self.queue_attr, self.queue_ctor = self._attr_assigned_from(("deque", "list", "Queue", "SimpleQueue", "LifoQueue"))
+        try:
+            self.queue_attr, self.queue_ctor = self._attr_assigned_from(("deque", "list", "Queue", "SimpleQueue", "LifoQueue"))
+        except AnalysisError:
+            # not one of the known containers: the queue is whatever put() adds its argument to (its constructor's name is
+            # kept, so the rules about the queue itself can say what they do not recognise; other properties are unaffected)
+            self.queue_attr, self.queue_ctor = self._queue_from_put()
         self.sentinel_attr, _ = self._attr_assigned_from(("object",))
         self.registry = program.cls("CallbacksRegistry")
         self.executor = program.cls("CallbacksExecutor")
@@ -139,6 +144,28 @@ class Kernel:
         self.groupers = self._read_groupers()
 
     # ------------------------------------------------------------------ discovery
+    def _queue_from_put(self) -> Tuple[str, str]:
+        put = self.base.method("put")
+        if put is None or len(put.params) < 2:
+            raise AnalysisError("anchor lost: BaseEngine.put")
+        attr = None
+        for n in own_nodes(put.node):
+            if isinstance(n, ast.Call) and isinstance(n.func, ast.Attribute) and isinstance(n.func.value, ast.Attribute) \
+                    and isinstance(n.func.value.value, ast.Name) and n.func.value.value.id == "self" \
+                    and any(isinstance(a, ast.Name) and a.id == put.params[1] for a in n.args):
+                attr = n.func.value.attr
+        if attr is None:
+            raise AnalysisError("anchor lost: the queue BaseEngine.put adds the trigger to")
+        init = self.base.method("__init__")
+        ctor = "?"
+        for n in own_nodes(init.node) if init is not None else []:
+            tgt = n.targets[0] if isinstance(n, ast.Assign) and len(n.targets) == 1 else (n.target if isinstance(n, ast.AnnAssign) else None)
+            val = getattr(n, "value", None)
+            if isinstance(tgt, ast.Attribute) and tgt.attr == attr and isinstance(val, ast.Call):
+                f = val.func
+                ctor = f.id if isinstance(f, ast.Name) else (f.attr if isinstance(f, ast.Attribute) else "?")
+        return attr, ctor
+
     def _attr_assigned_from(self, ctor_names) -> Tuple[str, str]:
         init = self.base.method("__init__")
         if init is None:
@@ -288,3 +315,34 @@ class Kernel:
             return False
         res = ev.x.get("callee")
         return bool(res and any(t.name == name for t in res.targets))
+
+
+def initial_test(term: ast.AST) -> Optional[bool]:
+    """Does the branch condition `term` test for the engine's initial-activation trigger?
+    -> True when the condition being true means "this is the initial trigger", False when it means the opposite,
+    None when it is some other test.  Recognised: comparison of the event with the literal '__initial__' (by name), and an
+    identity comparison with the trigger the engine remembers (`<trigger> is self._initial_trigger`)."""
+    if not (isinstance(term, ast.Compare) and len(term.ops) == 1):
+        return None
+    op = term.ops[0]
+    sides = [term.left, term.comparators[0]]
+    by_name = any(isinstance(c, ast.Constant) and c.value == "__initial__" for c in sides)
+    by_identity = any(isinstance(c, ast.Attribute) and isinstance(c.value, ast.Name) and c.value.id == "self" and "initial" in c.attr
+                      for c in sides)
+    if by_name and isinstance(op, (ast.Eq, ast.NotEq)):
+        return isinstance(op, ast.Eq)
+    if by_identity and isinstance(op, (ast.Is, ast.IsNot, ast.Eq, ast.NotEq)):
+        return isinstance(op, (ast.Is, ast.Eq))
+    return None
+
+
+def through_self_attr(term: ast.AST, p, upto: int) -> ast.AST:
+    """`self.<attr>` read on a path after `self.<attr> = v` was stored on it denotes v (last store before `upto`)."""
+    if isinstance(term, ast.Attribute) and isinstance(term.value, ast.Name) and term.value.id == "self":
+        last = None
+        for e in p.events[:upto]:
+            if e.kind == "store" and e.x.get("attr") == term.attr and show(e.term.value) == "self":
+                last = e
+        if last is not None:
+            return last.x["value"]
+    return term
